@@ -187,6 +187,20 @@ func ocspBehaviours() []ocspBehaviour {
 			return okResp(pki.ForgeOCSP(pki.OCSPSpec{Issuer: w.root, Signer: x.Key, Responder: x, Embed: []*pki.Cert{x}, Singles: []pki.OCSPSingle{single(w, pki.OCSPGood)}}))
 		})
 	}
+	// the answer *says* it is from the issuer (ResponderID by name or by key hash) while it is signed by, and embeds, a certificate the
+	// issuer merely issued: who an answer claims to be from is written by its signer
+	for _, cl := range []struct {
+		n      string
+		signer func(w *ocspWorld) *pki.Cert
+		byKey  bool
+	}{{"sibling-claiming-to-be-the-issuer(byName)", func(w *ocspWorld) *pki.Cert { return w.sibling }, false}, {"sibling-claiming-to-be-the-issuer(byKey)", func(w *ocspWorld) *pki.Cert { return w.sibling }, true},
+		{"checked-cert-claiming-to-be-the-issuer(byName)", func(w *ocspWorld) *pki.Cert { return w.leaf }, false}, {"checked-cert-claiming-to-be-the-issuer(byKey)", func(w *ocspWorld) *pki.Cert { return w.leaf }, true}} {
+		cl := cl
+		add("good/signed-by-"+cl.n, clsOther, func(w *ocspWorld) netsim.Answer {
+			x := cl.signer(w)
+			return okResp(pki.ForgeOCSP(pki.OCSPSpec{Issuer: w.root, Signer: x.Key, Responder: w.root, ByKeyHash: cl.byKey, Embed: []*pki.Cert{x}, Singles: []pki.OCSPSingle{single(w, pki.OCSPGood)}}))
+		})
+	}
 	add("good/signed-by-unrelated-root-embedded", clsOther, func(w *ocspWorld) netsim.Answer {
 		return okResp(pki.ForgeOCSP(pki.OCSPSpec{Issuer: w.root, Signer: w.otherRoot.Key, Responder: w.otherRoot, Embed: []*pki.Cert{w.otherRoot}, Singles: []pki.OCSPSingle{single(w, pki.OCSPGood)}}))
 	})
